@@ -1,4 +1,4 @@
 def logDepth (sigma : Rat) (scale : Rat) : Rat × Int :=
   let sigma_px : Rat := (sigma / scale)
-  let depth : Int := (Py.ceil (sigma_px * (2 : Rat)))
+  let depth : Int := (((Py.ceil (sigma_px * (4 : Rat))) + (Py.ceil sigma_px)) + (1 : Int))
   (sigma_px, depth)
